@@ -113,6 +113,9 @@ class Fn:
             obj=getattr(self.mod.py,e.value.id,None)
             if isinstance(obj,type) and issubclass(obj,enum.Enum) and e.attr in obj.__members__ and isinstance(obj[e.attr].value,int):
                 return "(VInt (%d))"%obj[e.attr].value
+            # a constant attribute (tuple / list / str / int) of a class visible in the module, e.g. IpAnonymizer.RFC_1918_NETWORKS
+            if isinstance(obj,type) and e.attr in obj.__dict__ and isinstance(obj.__dict__[e.attr],(tuple,list,str,int)) and not isinstance(obj.__dict__[e.attr],bool):
+                return coq_val(obj.__dict__[e.attr])
         if isinstance(e,ast.Attribute):
             # class constant?
             if isinstance(e.value,ast.Name) and e.value.id in ("self","cls") and self.cls:
@@ -137,6 +140,9 @@ class Fn:
             a=self.ex(e.operand,binds); t=self.tmp(); binds.append("%s <- py_not %s ;; "%(t,a)); return t
         if isinstance(e,ast.UnaryOp) and isinstance(e.op,ast.USub):
             a=self.ex(e.operand,binds); t=self.tmp(); binds.append("%s <- py_neg %s ;; "%(t,a)); return t
+        if isinstance(e,ast.BoolOp) and len(e.values)>2:
+            # a or b or c  ==  a or (b or c)   (same for and): fold to the binary form
+            e=ast.BoolOp(op=e.op,values=[e.values[0],ast.BoolOp(op=e.op,values=e.values[1:])])
         if isinstance(e,ast.BoolOp) and len(e.values)==2:
             a=self.ex(e.values[0],binds); sub=[]; b=self.ex(e.values[1],sub); t=self.tmp()
             if any("v_self) := p_" in s for s in sub): raise Unsupported("effect in short-circuit")
@@ -189,6 +195,11 @@ class Fn:
         raise Unsupported("expr "+ast.dump(e)[:70])
     def call(self,e,binds):
         f=e.func
+        if isinstance(f,ast.Name) and f.id in getattr(self.mod,"oracles",()):
+            # a function left uninterpreted (another module's, or this module's argument parser): its behaviour is whatever the py_call parameter says
+            pos="(VList [%s])"%";".join(self.ex(a,binds) for a in e.args)
+            kw="(VDict [%s])"%";".join("(S_ %s, %s)"%(cq(k.arg),self.ex(k.value,binds)) for k in e.keywords)
+            t=self.tmp(); binds.append("%s <- py_call (VFun (of_string %s)) (VTuple [%s; %s]) ;; "%(t,cq(f.id),pos,kw)); return t
         # super(X, self).__init__(...)
         if isinstance(f,ast.Attribute) and isinstance(f.value,ast.Call) and isinstance(f.value.func,ast.Name) and f.value.func.id=="super":
             X=f.value.args[0].id; base=None
@@ -235,6 +246,12 @@ class Fn:
             if f.id=="abs" and len(e.args)==1: return lib("py_abs",A(0))
             if f.id=="bool" and len(e.args)==1: return "(VBool (truthy %s))"%A(0)
             if f.id=="ValueError": return A(0) if e.args else "(VStr [])"
+        if isinstance(f,ast.Attribute) and isinstance(f.value,ast.Name) and f.value.id=="logging":
+            for a in e.args: self.ex(a,binds)          # arguments are evaluated (attribute errors would surface), the call itself has no result we use
+            return "VNone"
+        if isinstance(f,ast.Attribute) and f.attr=="split" and len(e.args)==1 and isinstance(e.args[0],ast.Constant) and isinstance(e.args[0].value,str) and len(e.args[0].value)==1:
+            x=self.ex(f.value,binds)
+            return lib("py_split1",x,"(%d)"%ord(e.args[0].value))
         if isinstance(f,ast.Attribute):
             if isinstance(f.value,ast.Name) and f.value.id=="ipaddress":
                 if f.attr=="ip_network": return lib("ip_network",A(0))
@@ -345,9 +362,9 @@ class Fn:
         return "(* REFUSED by the translator: %s *)\nDefinition %s (py_call : pyval -> pyval -> res) (fuel:nat) %s : res := Exc Unsupported."%(reason.replace("*)","* )"),gname(self.cls,self.fn.name),ps)
 
 
-def translate_module(path, pymod, wanted=None):
+def translate_module(path, pymod, wanted=None, oracles=()):
     """returns (coq text, translated names, {failed name: reason})"""
-    mod=Mod(path,pymod)
+    mod=Mod(path,pymod); mod.oracles=set(oracles)
     out=["(* GENERATED by tools/translate.py from %s -- do not edit *)"%path,"From Coq Require Import List ZArith String.","Require Import PyLib.","Import ListNotations.","Local Open Scope Z_scope.","Local Open Scope string_scope.","",
          "(* every generated function takes py_call: the call of a function-valued field (dispatcher / oracle) *)",""]
     items=[]
